@@ -125,7 +125,15 @@ def check_property(prop, tier, args):
             elif r.covers is not None and r.covers[0] != r.covers[1]:
                 undecided.append((o, "cover unsatisfied %d/%d: a precondition excludes every input" % r.covers))
         elif r.status == "failed":
-            failed.append((o, r))
+            real = [fc for fc in r.failed_checks if "unwinding assertion" not in fc.get("description", "")]
+            if r.failed_checks and not real:
+                # only loop-bound (unwinding) assertions failed: the harness bound is too small for this
+                # code, which says nothing about the property. Undecided, never an alarm.
+                entry["status"] = "unwind-bound-exceeded"
+                undecided.append((o, "unwinding assertion failed (harness loop bound too small for this code)"))
+            else:
+                r.failed_checks = real or r.failed_checks
+                failed.append((o, r))
         else:
             undecided.append((o, r.status))
 
